@@ -2,6 +2,7 @@ package PVM
 
 import (
 	"fmt"
+	"math"
 	"sync"
 	"time"
 
@@ -178,6 +179,16 @@ func hostCallOutOfGas(input OmegaInput) (output OmegaOutput) {
 		ExitReason: ExitOOG,
 		Addition:   input.Addition,
 	}
+}
+
+// accountOfRegister returns the account a register value names. Service identifiers are the 32-bit
+// naturals; a register value of 2^32 or more names no service and must not be truncated to one.
+func accountOfRegister(d types.ServiceAccountState, w uint64) (types.ServiceAccount, bool) {
+	if w > math.MaxUint32 {
+		return types.ServiceAccount{}, false
+	}
+	a, ok := d[types.ServiceID(w)]
+	return a, ok
 }
 
 func chargeGasAndCheck(input *OmegaInput) *OmegaOutput {
@@ -534,7 +545,7 @@ func lookup(input OmegaInput) (output OmegaOutput) {
 	var a *types.ServiceAccount
 	if input.VM.Registers[7] == 0xffffffffffffffff || input.VM.Registers[7] == uint64(serviceID) {
 		a = &serviceAccount
-	} else if value, exists := delta[types.ServiceID(input.VM.Registers[7])]; exists {
+	} else if value, exists := accountOfRegister(delta, input.VM.Registers[7]); exists {
 		a = &value
 	}
 
@@ -626,7 +637,7 @@ func read(input OmegaInput) (output OmegaOutput) {
 	// assign a
 	if sStar == uint64(serviceID) {
 		a = delta[serviceID]
-	} else if value, exists := delta[types.ServiceID(sStar)]; exists {
+	} else if value, exists := accountOfRegister(delta, sStar); exists {
 		a = value
 		serviceID = types.ServiceID(sStar)
 	} else {
@@ -807,7 +818,7 @@ func info(input OmegaInput) (output OmegaOutput) {
 	if input.VM.Registers[7] == 0xffffffffffffffff {
 		a = delta[serviceID]
 	} else {
-		value, exist := delta[types.ServiceID(input.VM.Registers[7])]
+		value, exist := accountOfRegister(delta, input.VM.Registers[7])
 		if exist {
 			a = value
 		} else {
